@@ -167,8 +167,23 @@ package server
 // ---------------------------------------------------------------------------
 // C15: the stream parser never panics on a wrongly typed token and never hands out an entity from a failed parse
 
-//@ assumed (*Store).GetNamespacedIdentifier
-//@   modifies $held, $acq, $persisted, $storeAttempted, map[string]string
+// compacting a payload identifier under the payload's namespace context: the result is prefix:local with a registered prefix whose
+// expansion, followed by the local part, is the URI the payload value denotes (absolute http(s) URI: itself; no colon: the default
+// "_" expansion + value; otherwise the expansion of the local prefix before the first colon + the rest)
+//@ unit (*Store).GetNamespacedIdentifier
+//@   prop C15 C13
+//@   requires [callers-hold-no-lock-at-or-above-the-namespace-lock] forall l int :: has($held, l) ==> lockLevel(l) < 5
+//@   requires s != nil && s.NamespaceManager != nil && !has($held, addrOf(s.NamespaceManager.lock))
+//@   ensures [C15:success-yields-a-registered-compact-identifier] ret1 == nil ==> indexOf(ret0, ":") >= 0 && has(s.NamespaceManager.prefixToExpansionMapping, ret0[:indexOf(ret0, ":")])
+//@   ensures [C15:absolute-uri-denotes-itself] ret1 == nil && (hasPrefix(val, "http://") || hasPrefix(val, "https://")) ==> s.NamespaceManager.prefixToExpansionMapping[ret0[:indexOf(ret0, ":")]] + ret0[indexOf(ret0, ":")+1:] == val
+//@   ensures [C15:bare-value-takes-the-default-expansion] ret1 == nil && !(hasPrefix(val, "http://") || hasPrefix(val, "https://")) && indexOf(val, ":") < 0
+//@     | ==> old(has(localNamespaces, "_")) && s.NamespaceManager.prefixToExpansionMapping[ret0[:indexOf(ret0, ":")]] + ret0[indexOf(ret0, ":")+1:] == old(localNamespaces["_"]) + val
+//@   ensures [C15:local-prefix-rewritten-to-its-expansion] ret1 == nil && !(hasPrefix(val, "http://") || hasPrefix(val, "https://")) && indexOf(val, ":") >= 0
+//@     | ==> old(has(localNamespaces, val[:indexOf(val, ":")])) && s.NamespaceManager.prefixToExpansionMapping[ret0[:indexOf(ret0, ":")]] + ret0[indexOf(ret0, ":")+1:] == old(localNamespaces[val[:indexOf(val, ":")]]) + val[indexOf(val, ":")+1:]
+//@   ensures [C15:empty-value-rejected] val == "" ==> ret1 != nil
+//@   ensures [lock-released] $held == old($held)
+//@   modifies $held, $acq, $persisted, $storeAttempted, map[string]string, F.server.NamespacesState.*
+//@   safe slice
 //@ unit (*EntityStreamParser).parseProperties
 //@   prop C15
 //@   requires [parser] esp != nil
